@@ -151,3 +151,24 @@ class SkewClock(Clock):
 
     def peek_next(self):
         return self._t + self.tick
+
+
+class IntClock(Clock):
+    """Counts integer ticks from a base no double can hold exactly (a nanosecond counter): the step time must be the
+    sampled value itself, not its nearest float (C13)."""
+
+    def __init__(self, base=2 ** 62 + 3):
+        self._t = base
+        self.reads = 0
+
+    @property
+    def time(self):
+        self.reads += 1
+        return self._t
+
+    def advance(self, d):
+        assert d >= 0 and int(d) == d
+        self._t += int(d)
+
+    def peek_next(self):
+        return self._t
